@@ -49,8 +49,14 @@ class WeightMixin(abc.ABC, Generic[_T]):
         """The coefficient to be multiplied must be in a `params` property."""
 
     def __mul__(self, coefficient: _T) -> "WeightMixin":
-        self.params["coefficient"] *= coefficient
-        return self
+        # NOTE: A new object is returned, so that an operand which is used more than
+        # once in an expression (e.g., `2 * state + 3 * state`) is left unchanged.
+        result = copy.copy(self)
+        result._params = {  # type: ignore[attr-defined]
+            **self.params,
+            "coefficient": self.params["coefficient"] * coefficient,
+        }
+        return result
 
     __rmul__ = __mul__
 
